@@ -85,21 +85,59 @@ UNREACHABLE = [
 ]
 
 
+MISSING = []     # anchored names that could not be resolved (information only)
+
+
+def _resolve(module_name, dotted):
+    '''getattr chain that never raises: None when a name is gone (a harmless
+    rewrite may rename or remove helpers).'''
+    import importlib
+    try:
+        obj = importlib.import_module(module_name)
+        for part in dotted.split('.'):
+            obj = getattr(obj, part)
+        return obj
+    except Exception:       # pylint: disable=broad-except
+        MISSING.append(f'{module_name}:{dotted}')
+        return None
+
+
 def anchored_functions():
-    from t4_geom_convert import main
-    from t4_geom_convert.Kernel.Volume import Lattice as L
-    from t4_geom_convert.Kernel.Volume.CellConversion import CellConversion
-    from t4_geom_convert.Kernel.FileHandlers.Parser.ParseMCNPCell import \
-        ParseMCNPCell
-    from t4_geom_convert.Kernel.Transformation.Transformation import \
-        compose_transform
-    return [main.parse_lattice, L.latticeReciprocal, L.latticeVector,
-            L.LatticeBounds.__init__, L.LatticeBounds.size,
-            L.LatticeBounds.__getitem__, L.LatticeBounds.__len__,
-            L.LatticeBounds.dims, L.LatticeBounds.__iter__,
-            L.LatticeBounds.copy, L.LatticeBounds.indices, L.parse_ranges,
-            L.LatticeSpec.__init__, L.LatticeSpec.__getitem__,
-            L.LatticeSpec.items, L.squareLatticeReciprocalVecs,
-            L.squareLatticeBaseVectors, CellConversion.extract_surfaces,
-            CellConversion.develop_lattice, ParseMCNPCell.to_fillid,
-            ParseMCNPCell.parse_fill_kw, compose_transform]
+    '''The functions named by the anchors of C06 that exist in this tree.'''
+    del MISSING[:]
+    names = [
+        ('t4_geom_convert.main', 'parse_lattice'),
+        ('t4_geom_convert.Kernel.Volume.Lattice', 'latticeReciprocal'),
+        ('t4_geom_convert.Kernel.Volume.Lattice', 'latticeVector'),
+        ('t4_geom_convert.Kernel.Volume.Lattice', 'LatticeBounds.__init__'),
+        ('t4_geom_convert.Kernel.Volume.Lattice', 'LatticeBounds.size'),
+        ('t4_geom_convert.Kernel.Volume.Lattice', 'LatticeBounds.__getitem__'),
+        ('t4_geom_convert.Kernel.Volume.Lattice', 'LatticeBounds.__len__'),
+        ('t4_geom_convert.Kernel.Volume.Lattice', 'LatticeBounds.dims'),
+        ('t4_geom_convert.Kernel.Volume.Lattice', 'LatticeBounds.__iter__'),
+        ('t4_geom_convert.Kernel.Volume.Lattice', 'LatticeBounds.copy'),
+        ('t4_geom_convert.Kernel.Volume.Lattice', 'LatticeBounds.indices'),
+        ('t4_geom_convert.Kernel.Volume.Lattice', 'parse_ranges'),
+        ('t4_geom_convert.Kernel.Volume.Lattice', 'LatticeSpec.__init__'),
+        ('t4_geom_convert.Kernel.Volume.Lattice', 'LatticeSpec.__getitem__'),
+        ('t4_geom_convert.Kernel.Volume.Lattice', 'LatticeSpec.items'),
+        ('t4_geom_convert.Kernel.Volume.Lattice', 'squareLatticeReciprocalVecs'),
+        ('t4_geom_convert.Kernel.Volume.Lattice', 'squareLatticeBaseVectors'),
+        ('t4_geom_convert.Kernel.Volume.CellConversion',
+         'CellConversion.extract_surfaces'),
+        ('t4_geom_convert.Kernel.Volume.CellConversion',
+         'CellConversion.develop_lattice'),
+        ('t4_geom_convert.Kernel.FileHandlers.Parser.ParseMCNPCell',
+         'ParseMCNPCell.to_fillid'),
+        ('t4_geom_convert.Kernel.FileHandlers.Parser.ParseMCNPCell',
+         'ParseMCNPCell.parse_fill_kw'),
+        ('t4_geom_convert.Kernel.Transformation.Transformation',
+         'compose_transform'),
+    ]
+    funcs = []
+    for module_name, dotted in names:
+        obj = _resolve(module_name, dotted)
+        obj = getattr(obj, '__func__', obj)
+        if obj is not None and hasattr(obj, '__code__'):
+            funcs.append(obj)
+    return funcs
